@@ -3,9 +3,15 @@ CONSTANTS
   Producers <- MCProducers
   Flushers <- MCFlushers
   Stoppers <- MCStoppers
+  Outcomes <- MCOutcomes
+  Expiring <- MCExpiring
   SpansPer = @SPANSPER@
   QCap = @QCAP@
   MaxBatch = @MAXBATCH@
   Blocking = @BLOCKING@
   AllowKnown = TRUE
+  CodeShape = "@CODESHAPE@"
+  ExportTimeout = @EXPORTTIMEOUT@
+  ResetOnFailure = TRUE
+  TimerSim = @TIMERSIM@
 CHECK_DEADLOCK FALSE
